@@ -90,6 +90,7 @@ type Spec struct {
 	RoutingStrategy string
 	Fallback        string
 	DiscoveryOff    bool
+	RefreshOnMiss   bool
 	ModelInterval   time.Duration
 	ExtraYAML       string
 }
@@ -193,7 +194,7 @@ func (s *Spec) yaml(port int) string {
 	if fb == "" {
 		fb = "compatible_only"
 	}
-	fmt.Fprintf(&b, "model_registry:\n  type: memory\n  enable_unifier: true\n  routing_strategy:\n    type: %s\n    options:\n      fallback_behavior: %s\n      discovery_timeout: 2s\n      discovery_refresh_on_miss: false\n  unification:\n    enabled: true\n    cache_ttl: 10m\n", strat, fb)
+	fmt.Fprintf(&b, "model_registry:\n  type: memory\n  enable_unifier: true\n  routing_strategy:\n    type: %s\n    options:\n      fallback_behavior: %s\n      discovery_timeout: 2s\n      discovery_refresh_on_miss: %v\n  unification:\n    enabled: true\n    cache_ttl: 10m\n", strat, fb, s.RefreshOnMiss)
 	pt := true
 	if s.Passthrough != nil {
 		pt = *s.Passthrough
